@@ -11,7 +11,8 @@ META = dict(
     technique="Coq theorems (invariant of the cache + undo log, preserved by every State operation; induction over the history) "
               "on a line-by-line model of state.py; the model's executable step function is run inside Coq (vm_compute) on the "
               "same operation histories as the real State and compared result by result; from-scratch oracle on the implementation; "
-              "the fork rule of State.__setitem__ is recognised on every run (source shape + probe on a real State, fail closed)",
+              "the fork rule of State.__setitem__ and the combination rule of State.revert(subset) are recognised on every run (source "
+              "shape + probes on a real State, fail closed) and select the executable instance of the tie",
     level_text="For every value type, every well-formed graph, every history of get/set/put/revert/partial revert/clone/mode "
                "switch/precompute/clear on any number of states: a successful read is the from-scratch evaluation of the current "
                "independent values, a read fails (input error) iff that evaluation needs an unset independent value, reads are "
@@ -21,9 +22,11 @@ META = dict(
     level_note="Trusted: Coq kernel (no axioms: all theorems closed under the global context); the hand-written model's tie is the "
                "executed correspondence (toy graphs built as real LinkedVariables), not a translation; graph well-formedness is a "
                "hypothesis (C15) checked by vm_compute on every graph used; F_mix (row-wise node functions) is a hypothesis for "
-               "partial reverts; torch kernels, deepcopy, REF-mode aliasing under in-place mutation are outside the model. "
-               "Former finding F1 (fork-mode-switch-stale-revert) is fixed by 27ac519; a tree whose __setitem__ keeps the fork on an "
-               "un-forked assignment is reported as a violation with the stale-read history as replay.",
+               "partial reverts (proved for one-parent entry-wise nodes under torch.where by C02_F_mix_entrywise; exercised incl. +-inf/NaN "
+               "by the tie and the oracle); torch kernels, deepcopy, REF-mode aliasing under in-place mutation are outside the model. "
+               "Former finding F1 (fork-mode-switch-stale-revert) is fixed by 27ac519 and the blend of partial reverts (F2 of C02) by "
+               "fe0cadd; a tree whose __setitem__ keeps the fork on an un-forked assignment, or whose revert(subset) blends, is reported "
+               "as a violation with the stale-read history as replay.",
     design_ref="DESIGN.md section 4 C01, section 6 F1",
 )
 
@@ -423,7 +426,7 @@ def main(run: Run):
     run.assumptions += [
         "WF g: ancestors/children delivered by dag.py are the transitive closures in topological order (C15); recomputed by wf_b on every graph of the tie",
         "F_mix: node functions of per-individual nodes act row by row (C07); only used for histories containing a partial revert",
-        "Disciplined: partial reverts only while every doubly cached node of the forked sub-graph carries the individual axis (documented precondition)",
+        "MaskDisciplined: partial reverts only while every doubly cached node of the forked sub-graph carries the individual axis (documented precondition); no other restriction on histories",
         "State.revert(subset) selects with torch.where (Coq instance xsem_where of the tie and of the examples): "
         + ("recognised on the tree under test (source shape + probes)" if MIX == CLAIMED_MIX else
            "NOT the case on the tree under test — tie made against xsem (blend)"),
